@@ -332,12 +332,12 @@ def run_world(world: Dict[str, Any], scheds: Sequence[Sequence[str]]) -> Dict[st
 # --------------------------------------------------------------------------
 # real trees through the file-system seam (S1b)
 
-TESTPKG = '/repo/pydoctor/test/testpackages'
+TESTPKG = simsystem.REPO + '/pydoctor/test/testpackages'
 REAL_QUICK = ['allgames', 'basic', 'codeininit', 'cyclic_imports', 'cyclic_imports_base_classes', 'importingfrompackage',
               'interfaceallgames', 'interfaceclass', 'multipleinheritance', 'nestedconfusion', 'relativeimporttest',
               'reparented_module', 'reparenting_crash', 'reparenting_crash_alt', 'reparenting_follows_aliases', 'report_trigger',
               'modnamedafterbuiltin', 'package_module_name_clash', 'syntax_error']
-REAL_THOROUGH = ['/repo/pydoctor/templatewriter', '/repo/pydoctor/epydoc', '/repo/pydoctor/extensions',
+REAL_THOROUGH = [simsystem.REPO + '/pydoctor/templatewriter', simsystem.REPO + '/pydoctor/epydoc', simsystem.REPO + '/pydoctor/extensions',
                  'site:attr', 'site:hyperlink', 'site:constantly', 'site:incremental', 'site:automat', 'site:lunr', 'site:requests',
                  'site:cachecontrol', 'site:idna', 'site:packaging', 'site:urllib3']
 
